@@ -15,7 +15,7 @@ from vfw.ctx import Mismatch
 
 PROPERTY = "C16"
 
-DISTURBERS = ["none", "other-driven-inside-callback", "sibling-other-start-value", "define-same-names", "drive-same-names", "second-instance", "subclass-new-event", "subclass-any", "define-other-signature-lambda"]
+DISTURBERS = ["none", "class-with-clashing-state-ids", "sibling-with-async-listener", "other-driven-inside-callback", "sibling-other-start-value", "define-same-names", "drive-same-names", "second-instance", "subclass-new-event", "subclass-any", "define-other-signature-lambda"]
 
 
 def make_A():
@@ -131,11 +131,11 @@ BOUNDS = {
     "quick": "machine A (3 states, guarded + fallback candidates, callbacks taking event arguments positionally and keyword-only) driven by 3 `go` events; before "
     "each of the first two events one disturber out of {none, define an unrelated class with A's qualified class and method names but other signatures, define and "
     "drive it, create and drive a second A (between A's events, and from inside one of A's own callbacks), create siblings with other start_value, define a subclass of A that adds an event on A's states, define a subclass using from_.any(), define a lambda-bearing "
-    "class}; optionally another machine over a model of the same class but other instance-level hooks created first; a sample of the 9x9 disturber pairs; A's trace, states, allowed events, argument binding and result compared with A alone.",
-    "thorough": "all 81 disturber pairs.",
+    "class}; optionally another machine over a model of the same class but other instance-level hooks created first; an instance of A created after all disturbances is checked as well; disturbers also: an unrelated class whose state ids equal A's guard/callback names, a sibling A with a coroutine listener; a sample of the 11x11 disturber pairs; A's trace, states, allowed events, argument binding and result compared with A alone.",
+    "thorough": "all 121 disturber pairs.",
 }
 OUTSIDE = "interleavings across OS threads; more than two disturbers per history; pickling (C17)"
-OBLIGATIONS = ["driven-inside-callback", "sibling-start-values", "same-names-kwonly-first", "model-of-same-class-before", "undisturbed", "same-names-defined", "second-instance", "subclass-defined", "binding-checked"]
+OBLIGATIONS = ["clashing-state-ids", "async-sibling", "driven-inside-callback", "sibling-start-values", "same-names-kwonly-first", "model-of-same-class-before", "undisturbed", "same-names-defined", "second-instance", "subclass-defined", "binding-checked"]
 ASSUMPTIONS = [
     "the library's process-wide signature cache is emptied (through its own clear_cache hook, when present) at the start of every path, so that a path is a complete history",
     "A's expected behaviour is a table (A alone); comparing with a re-run would share the caches under test",
@@ -231,6 +231,20 @@ def run(ctx, params):
             raise Mismatch(f"state-changed-by:{done[-1] if done else 'nothing'}", f"expected {nxt}, in {sm.current_state.id}")
         ctx.cover("binding-checked")
         cur = nxt
+    # an instance of A created only now (after every disturbance) is A as well
+    late = A()
+    late.vals["ok"] = vals["ok"] = ctx.sym_bool("ok.late")
+    xl = ctx.sym_int("x.late")
+    try:
+        rl = late.send("go", xl, flag="late")
+    except Exception as e:  # noqa: BLE001
+        if type(e).__name__ == "NotDeterministic":
+            raise
+        raise Mismatch(f"late-instance-broken-by:{'+'.join(d for d in done if d != 'none') or 'nothing'}", f"A() created after the disturbances: send raised {type(e).__name__}: {str(e)[:150]}")
+    want = "b" if late.vals["ok"] else "c"
+    names = [t[0] for t in late.trace]
+    if late.current_state.id != want or names != ["enter", "ok", "on_go", "enter"] or not (isinstance(rl, tuple) and rl[0] == "A" and rl[2] == "late"):
+        raise Mismatch(f"late-instance-broken-by:{'+'.join(d for d in done if d != 'none') or 'nothing'}", f"A() created after the disturbances: state {late.current_state.id} (expected {want}), callbacks {names}, result {rl!r}")
     if not done or all(d == "none" for d in done):
         ctx.cover("undisturbed")
     ctx.note({"disturbers": done, "final": cur})
@@ -241,6 +255,33 @@ def disturb(ctx, d, A, done):
 
     done.append(d)
     if d == "none":
+        return
+    if d == "class-with-clashing-state-ids":
+        # an unrelated machine whose *state ids* equal the names of A's guard and callbacks
+        class Clash(StateMachine):
+            ok = State(initial=True)
+            on_go = State()
+            vals = State()
+            move = ok.to(on_go) | on_go.to(vals) | vals.to(ok)
+
+        Clash().send("move")
+        ctx.cover("clashing-state-ids")
+        return
+    if d == "sibling-with-async-listener":
+        class AL:
+            def __init__(self):
+                self.seen = []
+
+            async def after_go(self, x):
+                self.seen.append(x)
+
+        al = AL()
+        sib = A(listeners=[al])
+        sib.vals["ok"] = True
+        sib.send("go", 7)
+        if al.seen != [7] or sib.current_state.id != "b":
+            raise Mismatch("sibling-async-listener-not-awaited", f"a sibling instance built with a coroutine listener: listener saw {al.seen}, state {sib.current_state.id}")
+        ctx.cover("async-sibling")
         return
     if d == "other-driven-inside-callback":
         # while A is inside its next `go`, a second instance is created and driven from A's own callback
